@@ -176,12 +176,12 @@ def resolve_rows(args):
 
 
 # ------------------------------------------------------------------ families
-def machine_family(rng, n):
+def machine_family(rng, n, gspell=None):
     out = []
     for i in range(n):
         am, events = AMm.random_machine(rng, max_nodes=rng.choice([5, 7, 9]),
                                         features=dict(parallel=(i % 2 == 0), history=(i % 3 == 0), final=(i % 4 == 0), after=(i % 5 == 0)))
-        out.append(am.to_config())
+        out.append(am.to_config(gspell=(i % 2 if gspell is None else gspell)))
     return out
 
 
